@@ -33,6 +33,8 @@ BOUNDS = {
 OUTSIDE = ("5 compartments; complex or repeated eigenvalues (excluded by the property); accuracy of the numerical "
            "eigen-decomposition over six decades (floating point); IRF convolution (C05)")
 
+FLOAT_SELFCHECK = True
+
 
 def preload():
     import glotaran.builtin.megacomplexes.decay.decay_megacomplex  # noqa: F401
